@@ -137,7 +137,7 @@ def hCsv : Handler := fun r =>
           let rt := if b.seqs == files.map (·.map stripExpanded) then "same" else "diff"
           pre ++ s!" back=ok seq={b.seq} w=" ++ " / ".intercalate (b.seqs.map fun f => " ".intercalate (f.map printMsg)) ++ s!" rt={rt}"
       | .kf =>
-        if hasScaledFloatDev files then "KF-C19-6" else "-"
+        "-"   -- no open finding (KF-C19-1…6 fixed in /repo)
       | .prop => propCsv opts files r.impl
       | .spec => "n/a"
     | _, _ => if r.mode == .model then "bad-op" else if r.mode == .kf then "-" else "n/a"
